@@ -7,7 +7,7 @@ const { canonValue, diff, diffClass, stable } = require('../lib/canon');
 const E = require('../lib/espace');
 
 const { SYM } = require('../lib/tsyms');
-const L_HOSTS = ['div', 'frag', 'Fragment', 'FragmentI', 'KeepAlive', 'iiconPat'];
+const L_HOSTS = ['div', 'frag', 'Fragment', 'FragmentI', 'FragmentAlias2', 'KeepAlive', 'iiconPat'];
 const L_CHILDREN = Object.keys(E.CHILDREN);
 
 function tSrc(s) { return s.map((i) => SYM[i][1]).join(''); }
